@@ -144,6 +144,12 @@ def witnesses():
         ("batch_size-under-lock", {"spec": {"root": base, "lock": "lock_"}, "ops": [{"op": "batch_size", "node": 0}]}),
         ("S11-lazy-names", {"spec": {"root": lazy_named, "lock": "lock_"}, "ops": [{"op": "names", "node": 1, "which": 1}, {"op": "names", "node": 2, "which": 1},
                                                                            {"op": "names", "node": 3, "which": 1}]}),
+        # sound on /repo (the lazy stack's own names setter erases its cache): regression scenarios, no defect expected
+        ("ok:lazy-own-names-setter", {"spec": {"root": lazy_named, "lock": "lock_"}, "ops": [{"op": "names", "node": 0, "which": 1}, {"op": "names", "node": 0, "which": 2},
+                                                                                        {"op": "names", "node": 0, "which": 0}, {"op": "names", "node": 0, "which": 1}]}),
+        ("ok:relock-with-edits", {"spec": {"root": base, "lock": "lock_"}, "ops": [{"op": "relock_edit", "edit": 0, "enode": 0}, {"op": "relock_edit", "edit": 1, "enode": 1},
+                                                                                 {"op": "with_unlock", "edit": 3, "enode": 0}, {"op": "relock_edit", "edit": 2, "enode": 0},
+                                                                                 {"op": "sub_unlock", "node": 0}, {"op": "add_", "node": 0, "v": 2}]}),
         ("lazy-implicit-lock-cycle", {"spec": {"root": lazy, "lock": "members"}, "ops": [{"op": "member_relock_edit", "node": 0, "v": 3}]}),
         ("lazy-materialised", {"spec": {"root": inner, "lock": "lock_"}, "ops": [{"op": "set_", "node": 0, "leaf": 0, "v": 5}]}),
         ("result-mutation", {"spec": {"root": base, "lock": "lock_"}, "ops": [{"op": "mutate_result", "node": 0, "which": 0}, {"op": "mutate_result", "node": 0, "which": 1}]}),
@@ -167,12 +173,12 @@ def _run_one(prog):
     h0 = HOOK.hits
     t = time.time()
     old = signal.signal(signal.SIGALRM, _alarm)
-    signal.alarm(120)
+    signal.alarm(600)
     try:
         r = run_program(prog)
     except _Timeout:
         HOOK.on = False
-        return {"prog": prog, "steps": [], "fails": [("machinery:timeout", 0, {"err": "history did not finish within 120 s"},
+        return {"prog": prog, "steps": [], "fails": [("machinery:timeout", 0, {"err": "history did not finish within 600 s"},
                                                       {"cause": "none", "explained": False, "label": "timeout"})],
                 "nfails": 1, "reads": 0, "hits": 0, "events": [], "wall": time.time() - t}
     except Exception as e:  # noqa: BLE001
@@ -217,7 +223,7 @@ def _lost(job, why):
             "nfails": 1, "reads": 0, "hits": 0, "events": [], "wall": 0.0}
 
 
-def _pool_map(fn, jobs, procs, hard_timeout=150):
+def _pool_map(fn, jobs, procs, hard_timeout=900):
     """map over a fork pool that survives a worker killed by a hang / runaway allocation inside the code under test:
     the histories that were running when a worker died are re-run one by one; one that kills its worker again is reported"""
     from concurrent.futures import ProcessPoolExecutor
@@ -245,10 +251,12 @@ def _pool_map(fn, jobs, procs, hard_timeout=150):
         if not broken:
             break
         suspects = [i for i in pending if results[i] is None and flags[i] == 1]
+        if sum(1 for r in results if r is not None and r.get("lost")) >= 3:
+            break    # three histories already killed their worker: the run fails anyway, do not spend more time
         for i in suspects:   # alone, so that the culprit is identified
             ex1 = ProcessPoolExecutor(max_workers=1, mp_context=ctx, initializer=_init_worker, initargs=(None,))
             try:
-                results[i] = ex1.submit(_guard, fn, i, jobs[i], min(hard_timeout, 60)).result()
+                results[i] = ex1.submit(_guard, fn, i, jobs[i], min(hard_timeout, 300)).result()
             except BrokenProcessPool:
                 results[i] = _lost(jobs[i], "the worker died or the history did not finish within the time limit")
             except MemoryError:
@@ -335,7 +343,7 @@ def main(R):
         from . import tr_c06
         from .translate import TranslateError
         try:
-            tr_c06.run()
+            R.extra["translated_table"] = {k: v for k, v in tr_c06.run().items() if k != "shape"}
         except TranslateError as e:
             R.broken.append(f"translator c06_cache_sites: {e}")
     except ImportError:
@@ -349,7 +357,7 @@ def main(R):
         R.broken.append("verification hook not active: tensordict.utils._verif_register_cache_checker did not register (TENSORDICT_VERIF=1?)")
         return
     procs = min(16, os.cpu_count() or 1)
-    nclean, ndirty, nlazy, nops = (90, 90, 30, 10) if R.quick else (2500, 2500, 800, 24)
+    nclean, ndirty, nlazy, nops = (90, 90, 30, 10) if R.quick else (900, 900, 300, 20)
     progs = []
     cdir = os.path.join(VERIF, "corpus", PID)
     if os.path.isdir(cdir):
@@ -370,7 +378,24 @@ def main(R):
         absorb(R, res)
     if model_ok:
         from . import c06_model
+        t = time.time()
         c06_model.correspondence(R, procs)
+        R.extra["model_correspondence_wall_s"] = round(time.time() - t, 1)
+    if not R.quick:
+        coqchk(R)
+
+
+def coqchk(R):
+    """thorough tier: the independent checker re-checks the compiled property file and reports the axioms it depends on"""
+    import re
+    from .core import COQ, BuildLock, sh
+    with BuildLock():
+        rc, out = sh("timeout 1500 coqchk -silent -o -Q . TD TD.Props.C06", cwd=COQ, timeout=1600)
+    m = re.search(r"\* Axioms:\s*(.*?)\n\s*\n", out, re.S)
+    axioms = m.group(1).strip() if m else "?"
+    R.extra["coqchk"] = {"rc": rc, "axioms": axioms}
+    if rc != 0 or axioms != "<none>":
+        R.broken.append(f"coqchk: rc={rc}, axioms: {axioms[:300]}")
 
 
 def replay(body):
